@@ -225,3 +225,47 @@ def insert_then_edit(per_key: int = 2) -> Iterator[dict]:
                 op2 = None
             if op2 is not None:
                 yield {**case, 'ops': [op, op2]}
+
+
+def insert_then_space(per_key: int = 1) -> Iterator[dict]:
+    """The first steps of insert_then_edit (every way of putting a tree node into a list), followed by spacing assignments on the inserted node
+    and on the tree models inside it, both sides (at most `per_key` per (route, class, side)): a node that was linked in without being re-attached
+    answers its spacing accessors from the store it came from (round 8, seed C17-h)."""
+    import collections
+    from vf.obs import core as O
+    from vf.props import common
+    from autobean_refactor.models import base
+    count: collections.Counter = collections.Counter()
+
+    def firsts() -> Iterator[dict]:
+        for case in list_sweep(include_views=True):
+            if case['ops'][0].get('donors'):
+                yield case
+        for cname, mi, rawprop, views, text in FIELDS:
+            if text is None:
+                continue
+            yield {'dirs': _doc(text(2) + '\n' + text(3).replace('2000-01-01', '2000-01-05')), 'prime': False, 'sweep': True,
+                   'ops': [{'f': 'list', 'cls': cname, 'mi': 0, 'prop': rawprop, 'op': 'assign', 'src': {'cls': cname, 'mi': 1}}]}
+    for case in firsts():
+        op = case['ops'][0]
+        try:
+            root = common.parse_file(L.text_of(case['dirs']))
+            a = OPS.resolve(root, op)
+            a.run()
+        except Exception:  # noqa: BLE001
+            continue
+        ins = [x for x in a.inserted if isinstance(x, base.RawTreeModel) and not isinstance(x, O.Repeated)]
+        if not ins:
+            continue
+        route = f"{op['f']}:{op['op']}:{'step' if op.get('k') not in (None, 1) else ''}"
+        inside = {id(m) for x in ins for m, _ in O.walk(x) if isinstance(m, base.RawTreeModel) and not isinstance(m, O.Repeated)}
+        for cn, ms in OPS.index_models(root).items():
+            for i, m in enumerate(ms):
+                if id(m) not in inside or not hasattr(type(m), 'spacing_before'):
+                    continue
+                for side, text in (('before', '   '), ('after', '  ')):
+                    key = (route, cn, side)
+                    if count[key] >= per_key:
+                        continue
+                    count[key] += 1
+                    yield {**case, 'ops': [op, {'f': 'space', 'cls': cn, 'mi': i, 'side': side, 'text': text}]}
